@@ -25,6 +25,8 @@ pub enum SAct
     Direct(Box<SAct>),
     /// `world.flush()` in the middle of an exclusive body.
     Flush,
+    /// `SystemCommand::apply(world)` called in-line by an exclusive body, without a flush first.
+    RunNow(Ref),
 }
 
 #[derive(Clone, Debug)]
@@ -90,6 +92,7 @@ fn parse_act(t: &[&str]) -> Option<SAct>
         ["revoke", k] => SAct::Revoke(parse_idx('t', k)?),
         ["run", s] => SAct::Run(parse_ref(s)?),
         ["flush"] => SAct::Flush,
+        ["irun", s] => SAct::RunNow(parse_ref(s)?),
         ["drun", s] => SAct::Direct(Box::new(SAct::Run(parse_ref(s)?))),
         ["dsysevent", s, ty, pid] => SAct::Direct(Box::new(SAct::SysEvent(parse_ref(s)?, num(ty)?, num(pid)?))),
         ["dbroadcast", ty, pid] => SAct::Direct(Box::new(SAct::Broadcast(num(ty)?, num(pid)?))),
